@@ -235,13 +235,29 @@ VProperty(r) ==
 VBadProperty == SelectSeq(VRows, LAMBDA r : ~VProperty(r))
 VBadTranscription == SelectSeq(VRows, LAMBDA r : r.second = "" /\ r.conv = 1 /\ VArgs[r.arg].ok /\ r.entered = "")
 
+(* map_conversion<std::map<std::string, int>>: likewise for script Maps - entered only where the conversion is registered and every value is an int *)
+WRows == SelectSeq(Rows, LAMBDA r : r.k = "w")
+WForms == {"mapint", "cmapint&"}
+WArgs == [ ints |-> [ok |-> TRUE, recv |-> "map:a=1,b=2"], empty |-> [ok |-> TRUE, recv |-> "map:"], mvar |-> [ok |-> TRUE, recv |-> "map:k=4"],
+           mixed |-> [ok |-> FALSE, recv |-> ""], dbls |-> [ok |-> FALSE, recv |-> ""], nested |-> [ok |-> FALSE, recv |-> ""],
+           vec |-> [ok |-> FALSE, recv |-> ""], ivar |-> [ok |-> FALSE, recv |-> ""], svar |-> [ok |-> FALSE, recv |-> ""] ]
+WAllowed(r, f) == f = "BV" \/ (f \in WForms /\ r.conv = 1 /\ WArgs[r.arg].ok)
+WProperty(r) ==
+  /\ r.n = (IF r.entered = "" THEN 0 ELSE 1)
+  /\ (r.entered = "" <=> r.oc # "ok")
+  /\ (r.entered # "" => r.entered \in VOverloads(r) /\ WAllowed(r, r.entered))
+  /\ (r.entered \in WForms => r.recv = WArgs[r.arg].recv)
+  /\ ((\A f \in VOverloads(r) : ~WAllowed(r, f)) => r.entered = "")
+WBadProperty == SelectSeq(WRows, LAMBDA r : ~WProperty(r))
+WBadTranscription == SelectSeq(WRows, LAMBDA r : r.second = "" /\ r.conv = 1 /\ WArgs[r.arg].ok /\ r.entered = "")
+
 (* each call enters exactly one overload exactly once - also when the entered function itself throws *)
 XRows == SelectSeq(Rows, LAMBDA r : r.k = "x")
 XBad == SelectSeq(XRows, LAMBDA r : r.n > 1)
 
 Show(s, n) == \A i \in 1..(IF Len(s) < n THEN Len(s) ELSE n) : PrintT(<<"BAD", s[i]>>)
-Counts == <<"rows", Len(Rows), "property", Len(UBadProperty) + Len(BBadProperty) + Len(CBadProperty) + Len(ABad) + Len(MBadProperty) + Len(TBadProperty) + Len(VBadProperty),
-            "transcription", Len(UBadTranscription) + Len(BBadTranscription) + Len(CBadTranscription) + Len(TBadTranscription) + Len(VBadTranscription)>>
+Counts == <<"rows", Len(Rows), "property", Len(UBadProperty) + Len(BBadProperty) + Len(CBadProperty) + Len(ABad) + Len(MBadProperty) + Len(TBadProperty) + Len(VBadProperty) + Len(WBadProperty),
+            "transcription", Len(UBadTranscription) + Len(BBadTranscription) + Len(CBadTranscription) + Len(TBadTranscription) + Len(VBadTranscription) + Len(WBadTranscription)>>
 \* the verdicts are written out so that the check can name the failing calls
 Verdicts == ndJsonSerialize(IOEnv.OUT,
    [i \in 1..Len(UBadProperty) |-> [why |-> "property", row |-> UBadProperty[i]]] \o
@@ -252,6 +268,8 @@ Verdicts == ndJsonSerialize(IOEnv.OUT,
    [i \in 1..Len(XBad) |-> [why |-> "property", row |-> XBad[i]]] \o
    [i \in 1..Len(TBadProperty) |-> [why |-> "property", row |-> TBadProperty[i]]] \o
    [i \in 1..Len(VBadProperty) |-> [why |-> "property", row |-> VBadProperty[i]]] \o
+   [i \in 1..Len(WBadProperty) |-> [why |-> "property", row |-> WBadProperty[i]]] \o
+   [i \in 1..Len(WBadTranscription) |-> [why |-> "transcription", row |-> WBadTranscription[i]]] \o
    [i \in 1..Len(VBadTranscription) |-> [why |-> "transcription", row |-> VBadTranscription[i]]] \o
    [i \in 1..Len(TBadTranscription) |-> [why |-> "transcription", row |-> TBadTranscription[i]]] \o
    [i \in 1..Len(UBadTranscription) |-> [why |-> "transcription", row |-> UBadTranscription[i], predicted |-> UPredict(UBadTranscription[i])]] \o
